@@ -203,8 +203,12 @@ def prove(prop, thorough=False):
     thms = theorems_of(prop)
     res = {"obligations": len(thms), "discharged": 0, "failed": [], "axioms": {}, "errors": "", "theorems": [t for t, _ in thms]}
     with Lock("lake"):
-        p = sh(["lake", "build", "MockeryProps." + prop, "vdriver"], cwd=LEAN, timeout=3600)
+        pd = sh(["lake", "build", "vdriver"], cwd=LEAN, timeout=3600)
+        res["driver_ok"] = pd.returncode == 0
+        p = sh(["lake", "build", "MockeryProps." + prop], cwd=LEAN, timeout=3600)
         res["build_ok"] = p.returncode == 0
+        if not res["driver_ok"]:
+            res["errors"] = "model/driver does not build: " + "\n".join(l for l in (pd.stdout + pd.stderr).split("\n") if not l.startswith("trace:"))[-3000:]
         if p.returncode != 0:
             errs = (p.stdout + p.stderr)
             res["errors"] = "\n".join(l for l in errs.split("\n") if not l.startswith("trace:"))[-6000:]
